@@ -109,6 +109,40 @@ func runFilter(c *Case) ([]Obs, any) {
 					tx.AddTxOut(wire.NewTxOut(1, s))
 				}
 				return Obs{OK, b2i(node.IsRelevant(ctx, tx))}
+			case "rotate_race": // iterations : IsRelevant of a tx matching X (output) and Y (input) while another goroutine
+				// rotates the subscription {Y} -> {Y,X} -> {X} -> {X,Y} -> {Y}; at every instant the tx matches
+				x, y := bytes20(0x31), bytes20(0x32)
+				if err := node.SubscribePushDatas(ctx, [][]byte{y}); err != nil {
+					return Obs{ERR}
+				}
+				tx := wire.NewMsgTx(1)
+				tx.AddTxIn(wire.NewTxIn(&wire.OutPoint{Index: 1}, append([]byte{20}, y...)))
+				tx.AddTxOut(wire.NewTxOut(1, append([]byte{20}, x...)))
+				stop := make(chan struct{})
+				done := make(chan struct{})
+				go func() {
+					defer close(done)
+					for {
+						select {
+						case <-stop:
+							return
+						default:
+						}
+						node.SubscribePushDatas(ctx, [][]byte{x})
+						node.UnsubscribePushDatas(ctx, [][]byte{y})
+						node.SubscribePushDatas(ctx, [][]byte{y})
+						node.UnsubscribePushDatas(ctx, [][]byte{x})
+					}
+				}()
+				missed := int64(0)
+				for i := int64(0); i < op.Int(0); i++ {
+					if !node.IsRelevant(ctx, tx) {
+						missed++
+					}
+				}
+				close(stop)
+				<-done
+				return Obs{OK, missed}
 			case "hash160":
 				return append(Obs{OK}, bytesObs(bitcoin.Hash160(op.Bytes(0)))...)
 			case "subscribed":
@@ -124,4 +158,13 @@ func runFilter(c *Case) ([]Obs, any) {
 		result = append(result, obs)
 	}
 	return result, nil
+}
+
+
+func bytes20(b byte) []byte {
+	r := make([]byte, 20)
+	for i := range r {
+		r[i] = b
+	}
+	return r
 }
